@@ -5,6 +5,7 @@
     `done += 1` split into LOAD and STORE on two workers there is an interleaving after which BOTH
     `on_finish` callbacks have returned, `done = 1 < target_count = 2`, and the aggregate Future was never
     set — `gather_futures` never completes although every resolver completed.
+  * `gather_locked_sets_outer`: the same for the NON-atomic micro-steps under a lock held from LOAD to STORE.
   * `gather_atomic_sets_outer`: with an ATOMIC increment (LOAD+STORE one step; the TEST still separate and
     interleaved arbitrarily) — for EVERY number of workers and EVERY schedule — once all callbacks have
     returned the aggregate has been set, exactly once.
@@ -201,5 +202,192 @@ example : (arun (St.init 1 3) [2, 0, 2, 1, 0, 1]).allFinished = true := by decid
 /-- the atomic machine on the very interleaving that loses an update above (each worker's LOAD/STORE pair
     collapses into its first step; the extra indices are no-ops or tests) sets the aggregate -/
 example : (arun (St.init 0 2) [0, 1, 0, 1, 0, 1]).outerSet = true := by decide
+
+/-! ### non-atomic steps under a lock -/
+
+def countLoaded : List PC → Nat
+  | [] => 0
+  | p :: r => p.isLoaded.toNat + countLoaded r
+
+private theorem countLoaded_set (l : List PC) (i : Nat) (x y : PC) (h : l[i]? = some y) :
+    countLoaded (l.set i x) + y.isLoaded.toNat = countLoaded l + x.isLoaded.toNat := by
+  induction l generalizing i with
+  | nil => simp at h
+  | cons a r ih =>
+    cases i with
+    | zero => simp at h; subst h; simp [countLoaded, List.set]; omega
+    | succ j =>
+      simp at h
+      have := ih j h
+      simp [countLoaded, List.set]; omega
+
+private theorem countLoaded_zero_of_unlocked (l : List PC) (h : l.any PC.isLoaded = false) : countLoaded l = 0 := by
+  induction l with
+  | nil => rfl
+  | cons a r ih =>
+    simp at h
+    simp [countLoaded, h.1, ih (by simpa using h.2)]
+
+private theorem no_loaded_of_count_zero (l : List PC) (h : countLoaded l = 0) : ∀ t, PC.loaded t ∉ l := by
+  induction l with
+  | nil => simp
+  | cons a r ih =>
+    intro t hm
+    simp [countLoaded] at h
+    rcases List.mem_cons.mp hm with hm | hm
+    · subst hm; simp [PC.isLoaded] at h
+    · exact ih h.2 t hm
+
+private theorem mem_set_of_ne (l : List PC) (i : Nat) (a x y : PC) (ha : a ∈ l) (h : l[i]? = some y) (hne : a ≠ y) :
+    a ∈ l.set i x := by
+  induction l generalizing i with
+  | nil => simp at ha
+  | cons b r ih =>
+    cases i with
+    | zero =>
+      simp at h; subst h
+      rcases List.mem_cons.mp ha with ha | ha
+      · exact absurd ha hne
+      · simp [List.set, ha]
+    | succ j =>
+      simp at h
+      rcases List.mem_cons.mp ha with ha | ha
+      · simp [List.set, ha]
+      · simp [List.set]; right; exact ih j ha h
+
+private theorem counts_zero_of_all_finished (l : List PC) (h : l.all (· == .finished) = true) : countLoaded l = 0 := by
+  induction l with
+  | nil => rfl
+  | cons a r ih =>
+    simp at h
+    obtain ⟨ha, hr⟩ := h
+    subst ha
+    simp [countLoaded, PC.isLoaded, ih (by simpa using hr)]
+
+/-- invariant of the locked machine -/
+structure LInv (s : St) : Prop where
+  count : s.done + countStart s.pcs + countLoaded s.pcs = s.target
+  val : ∀ t, PC.loaded t ∈ s.pcs → t = s.done
+  one : countLoaded s.pcs ≤ 1
+  progress : s.sets ≠ 0 ∨ PC.stored ∈ s.pcs ∨ s.done < s.target
+  once : s.sets ≤ 1
+
+private theorem linv_init (plain n : Nat) (hn : 0 < n) : LInv (St.init plain n) := by
+  have hc : ∀ n, countStart (List.replicate n PC.start) = n := by
+    intro n; induction n with
+    | zero => rfl
+    | succ k ih => simp [List.replicate, countStart, ih]
+  have hl : ∀ n, countLoaded (List.replicate n PC.start) = 0 := by
+    intro n; induction n with
+    | zero => rfl
+    | succ k ih => simp [List.replicate, countLoaded, PC.isLoaded, ih]
+  refine ⟨?_, ?_, ?_, ?_, ?_⟩
+  · simp [St.init, hc, hl]
+  · intro t h; simp [St.init, List.mem_replicate] at h
+  · simp [St.init, hl]
+  · right; right; simp [St.init]; omega
+  · simp [St.init]
+
+private theorem linv_lstep (s : St) (i : Nat) (h : LInv s) : LInv (lstep s i) := by
+  unfold lstep
+  cases hp : s.pcs[i]? with
+  | none => simpa [step, hp] using h
+  | some pc =>
+    have hlt : i < s.pcs.length := by
+      rcases Nat.lt_or_ge i s.pcs.length with hl | hl
+      · exact hl
+      · simp [List.getElem?_eq_none hl] at hp
+    have hmem : pc ∈ s.pcs := List.mem_of_getElem? hp
+    cases pc with
+    | start =>
+      simp only
+      by_cases hlk : s.locked = true
+      · simpa [hlk] using h
+      · have hlk' : s.locked = false := by simpa using hlk
+        simp only [hlk', Bool.false_eq_true, if_false, step, hp]
+        have hz := countLoaded_zero_of_unlocked s.pcs (by simpa [St.locked] using hlk')
+        have hcs := countStart_set_start s.pcs i (.loaded s.done) (by simp) hp
+        have hcl := countLoaded_set s.pcs i (.loaded s.done) .start hp
+        simp [PC.isLoaded] at hcl
+        refine ⟨?_, ?_, ?_, ?_, ?_⟩
+        · simp; have := h.count; omega
+        · intro t hm
+          simp at hm
+          rcases List.mem_or_eq_of_mem_set hm with hm | hm
+          · exact h.val t hm
+          · cases hm; rfl
+        · simp; omega
+        · rcases h.progress with hq | hq | hq
+          · exact .inl hq
+          · right; left; simpa using mem_set_of_ne s.pcs i .stored (.loaded s.done) .start hq hp (by simp)
+          · exact .inr (.inr hq)
+        · simpa using h.once
+    | loaded t =>
+      have ht : t = s.done := h.val t hmem
+      subst ht
+      simp only [step, hp]
+      have hcs := countStart_set_other s.pcs i .stored (.loaded s.done) (by simp) (by simp) hp
+      have hcl := countLoaded_set s.pcs i .stored (.loaded s.done) hp
+      simp [PC.isLoaded] at hcl
+      have hone := h.one
+      have hz : countLoaded (s.pcs.set i .stored) = 0 := by omega
+      refine ⟨?_, ?_, ?_, ?_, ?_⟩
+      · simp [hcs, hz]; have := h.count; omega
+      · intro t hm; exact absurd hm (no_loaded_of_count_zero _ hz t)
+      · simp [hz]
+      · right; left; simpa using mem_set_self s.pcs i .stored hlt
+      · simpa using h.once
+    | stored =>
+      simp only [step, hp]
+      obtain ⟨hd, ht, hpc, hmono, honce, hset⟩ := test_fields s
+      have hcs := countStart_set_other s.pcs i .finished .stored (by simp) (by simp) hp
+      have hcl := countLoaded_set s.pcs i .finished .stored hp
+      simp [PC.isLoaded] at hcl
+      refine ⟨?_, ?_, ?_, ?_, ?_⟩
+      · simp [hd, ht, hpc, hcs, hcl]; exact h.count
+      · intro t hm
+        simp [hpc] at hm
+        rcases List.mem_or_eq_of_mem_set hm with hm | hm
+        · simpa [hd] using h.val t hm
+        · cases hm
+      · simp [hpc, hcl]; exact h.one
+      · simp only [hd, ht]
+        by_cases hdt : s.done = s.target
+        · left; exact hset hdt
+        · right; right; have := h.count; omega
+      · simpa using honce h.once
+    | finished => simpa [step, hp] using h
+
+private theorem linv_lrun (sched : List Nat) (s : St) (h : LInv s) : LInv (lrun s sched) := by
+  induction sched generalizing s with
+  | nil => simpa [lrun] using h
+  | cons i rest ih => simp only [lrun]; exact ih _ (linv_lstep s i h)
+
+/-- **gather_locked_sets_outer.** The NON-atomic micro-steps (LOAD, STORE, TEST) of `n > 0` workers under a lock
+    held from LOAD to STORE, EVERY interleaving (including workers that spin on the taken lock): once all callbacks
+    have returned no update was lost (`done = target_count`) and `outer.set_result` has succeeded exactly once —
+    the lost-update trace of `gather_nonatomic_lost_update` cannot happen. -/
+theorem gather_locked_sets_outer (plain n : Nat) (hn : 0 < n) (sched : List Nat)
+    (hfin : (lrun (St.init plain n) sched).allFinished = true) :
+    (lrun (St.init plain n) sched).outerSet = true ∧ (lrun (St.init plain n) sched).sets = 1
+      ∧ (lrun (St.init plain n) sched).done = (lrun (St.init plain n) sched).target := by
+  have h := linv_lrun sched _ (linv_init plain n hn)
+  generalize lrun (St.init plain n) sched = s at h hfin
+  have hall : s.pcs.all (· == .finished) = true := by simpa [St.allFinished] using hfin
+  obtain ⟨hz, hns⟩ := countStart_zero_of_all_finished s.pcs hall
+  have hl := counts_zero_of_all_finished s.pcs hall
+  have hc := h.count
+  have hsets : s.sets ≠ 0 := by
+    rcases h.progress with hp | hp | hp
+    · exact hp
+    · exact absurd hp hns
+    · omega
+  have := h.once
+  refine ⟨by simp [St.outerSet, hsets], by omega, by omega⟩
+
+/-- non-vacuity: the very schedule that loses an update without the lock — worker 1's LOAD finds the lock taken
+    and is retried later — runs both callbacks to the end -/
+example : (lrun (St.init 0 2) [0, 1, 0, 1, 0, 1, 1, 1]).allFinished = true
+    ∧ (lrun (St.init 0 2) [0, 1, 0, 1, 0, 1, 1, 1]).done = 2 := by decide
 
 end PyGql.Props.C08
